@@ -1,22 +1,11 @@
 package rules
 
 import (
-	"fmt"
 	"go/ast"
-	"go/token"
 	"go/types"
-	"sort"
-	"strings"
 
 	"lachk/core"
 )
-
-var _ = fmt.Sprint
-var _ ast.Node
-var _ token.Pos
-var _ types.Object
-var _ = sort.Strings
-var _ = strings.TrimSpace
 
 // c02MarkCodec: "not yet delivered" is encoded as mark == 0, so the stored mark must be an injective,
 // full-width encoding of the block's frame: a truncated encoding maps some later frame to 0 and every
@@ -26,31 +15,24 @@ func c02MarkCodec(c *core.Ctx) {
 		set := c.Fn("abft.Store.SetEventConfirmedOn")
 		get := c.Fn("abft.Store.GetEventConfirmedOn")
 		tableF := "abft.Store.epochTable.ConfirmedEvent"
-		puts := set.CallsTo(kvPut)
-		okW := len(puts) == 1
-		if okW {
-			_, pth := fieldPath(set, puts[0].Recv())
-			okW = len(pth) >= 1 && pth[len(pth)-1] == tableF
-			call, isC := ast.Unparen(puts[0].Call.Args[1]).(*ast.CallExpr)
-			okW = okW && isC && calleeName(set, call) == "inter/idx.Frame.Bytes"
-			if okW {
-				sel, k := call.Fun.(*ast.SelectorExpr)
-				okW = k && varOf(set, sel.X) == set.Param(1)
+		onTable := func(cs *core.CallSite) bool { return c01RecvField(cs) == tableF }
+		// x.<method>() on the given parameter, the method being exactly `callee` (locals looked through)
+		encOf := func(f *core.FuncInfo, e ast.Expr, callee string, of *types.Var) bool {
+			call, ok := c01ValueOf(f, e).(*ast.CallExpr)
+			if !ok || calleeName(f, call) != callee || of == nil {
+				return false
 			}
+			sel, ok := ast.Unparen(call.Fun).(*ast.SelectorExpr)
+			return ok && canonVar(f, varOf(f, sel.X)) == of
 		}
+		puts := set.CallsTo(kvPut)
+		okW := len(puts) == 1 && onTable(puts[0]) && len(puts[0].Call.Args) == 2 && encOf(set, puts[0].Call.Args[1], "inter/idx.Frame.Bytes", set.Param(1))
 		c.Check(okW, "mark is written as the full-width encoding of the frame", "T14 CodecPair", set.Pos(), "ConfirmedEvent.Put(key, on.Bytes())", "the confirmed mark is not the frame's fixed-width encoding: a truncated encoding stores 0 for some frame and its events look undelivered")
 		gets := get.CallsTo(kvGet)
-		okR := len(gets) == 1
+		okR := len(gets) == 1 && onTable(gets[0])
 		var buf *types.Var
 		if okR {
-			_, pth := fieldPath(get, gets[0].Recv())
-			okR = len(pth) >= 1 && pth[len(pth)-1] == tableF
-			get.InspectOwn(func(n ast.Node) bool {
-				if as, ok := n.(*ast.AssignStmt); ok && len(as.Rhs) == 1 && ast.Unparen(as.Rhs[0]) == ast.Expr(gets[0].Call) {
-					buf = varOf(get, as.Lhs[0])
-				}
-				return true
-			})
+			buf = c01ResultVar(get, gets[0].Call, 0)
 		}
 		okDec := false
 		nonZeroRet := 0
@@ -60,17 +42,33 @@ func c02MarkCodec(c *core.Ctx) {
 				continue
 			}
 			nonZeroRet++
-			if call := isCallTo(get, r.Results[0], "inter/idx.BytesToFrame"); call != nil && varOf(get, call.Args[0]) == buf && buf != nil {
+			if call := isCallTo(get, r.Results[0], "inter/idx.BytesToFrame"); call != nil && len(call.Args) == 1 && buf != nil && canonVar(get, varOf(get, call.Args[0])) == buf {
 				okDec = true
 			}
 		}
 		c.Check(okR && okDec && nonZeroRet == 1, "mark is read with the matching decoder", "T14 CodecPair", get.Pos(), "idx.BytesToFrame(ConfirmedEvent.Get(key))", "the confirmed mark is not decoded with the inverse of Frame.Bytes()")
-		// absent => 0 and only absent => constant 0
+		// absent => 0 and only absent => constant 0. "Absent" is buf == nil; since the writer stores the
+		// fixed-width (never empty) encoding, len(buf) == 0 says the same.
+		absent := func(ft core.Fact) bool {
+			if varNilFact(get, buf, true)(ft) {
+				return true
+			}
+			if !okW || buf == nil {
+				return false
+			}
+			lc, k := core.NormLinCmp(get.Info(), ft, func(e ast.Expr) string {
+				if call := isCallTo(get, e, "builtin.len"); call != nil && len(call.Args) == 1 && canonVar(get, varOf(get, call.Args[0])) == buf {
+					return "len"
+				}
+				return ""
+			})
+			return k && (lc.Equal(core.ParseLinCmp("len == 0")) || lc.Equal(core.ParseLinCmp("len <= 0")))
+		}
 		okAbs := false
 		for _, rp := range get.ReturnPoints() {
 			r := rp.Node().(*ast.ReturnStmt)
 			if len(r.Results) == 1 && core.IsConstInt(get.Info(), r.Results[0], 0) {
-				if g, _ := get.GuardedBy(rp, varNilFact(get, buf, true)); g {
+				if g, _ := get.GuardedBy(rp, absent); g {
 					okAbs = true
 				} else {
 					okAbs = false
@@ -78,22 +76,55 @@ func c02MarkCodec(c *core.Ctx) {
 				}
 			}
 		}
-		c.Check(okAbs, "0 is returned exactly for an absent mark", "T8", get.Pos(), "'return 0' only on the buf == nil edge", "an existing mark can be reported as 0 (not delivered)")
-		// same key on both sides
+		c.Check(okAbs, "0 is returned exactly for an absent mark", "T8", get.Pos(), "'return 0' only on the edge where no record was found", "an existing mark can be reported as 0 (not delivered)")
+		// same key on both sides: the event id's bytes
 		keyOf := func(f *core.FuncInfo, cs *core.CallSite) bool {
-			v := varOf(f, cs.Call.Args[0])
-			if v == nil {
-				return false
-			}
-			for _, a := range assignsToVar(f, v) {
-				if call, ok := ast.Unparen(a.RHS).(*ast.CallExpr); ok && a.RHS != nil && methodNamed(calleeName(f, call), "Bytes") {
-					if sel, k := call.Fun.(*ast.SelectorExpr); k && varOf(f, sel.X) == f.Param(0) {
-						return true
-					}
-				}
-			}
-			return false
+			return len(cs.Call.Args) >= 1 && f.Param(0) != nil && c01MethodOn(f, cs.Call.Args[0], "Bytes") == f.Param(0)
 		}
 		c.Check(len(puts) == 1 && len(gets) == 1 && keyOf(set, puts[0]) && keyOf(get, gets[0]), "mark is keyed by the event id on both sides", "T14 CodecPair", set.Pos(), "key = e.Bytes()", "writer and reader of the confirmed mark use different keys")
+	})
+}
+
+// c02RootsPersisted: a root that moves up several frames occupies one slot per frame, and the election
+// of a restarted node is rebuilt from the roots table alone (Bootstrap -> processKnownRoots ->
+// GetFrameRoots). Every slot that the live election saw must therefore be in the table: a slot that
+// exists only in memory makes the rebuilt election count other votes, so it can decide a frame the live
+// one had not decided — inside Bootstrap, before the application's callbacks are installed — and that
+// block never reaches the application: block frames are no longer consecutive and every later block
+// carries the swallowed block's events. Decided on Store.AddRoot: each iteration of the slot loop
+// writes the roots-table record of its own slot (directly or in a helper that always does).
+func c02RootsPersisted(c *core.Ctx) {
+	c.Clause("C02.roots", func() {
+		reg := c01AnalyseRegistration(c)
+		ar := reg.ar
+		const key = "every frame slot of a root is persisted in the roots table"
+		const rule = "T3 PostDominates (per iteration) + provenance"
+		const bad = "a restarted node rebuilds the election from the roots table; without the record of every slot it votes differently from the live election and can decide a frame during Bootstrap, before the block callbacks exist: that block is never delivered and the following blocks are shifted by one frame"
+		if len(reg.puts) == 0 {
+			c.Fail(key, rule, ar.Pos(), "AddRoot does not write the roots table (directly or through one helper): "+bad)
+			return
+		}
+		if reg.loop == nil {
+			c.Undecided(key, rule, reg.loopPos, "AddRoot does not register the slots in a counted loop over the root's frames ("+reg.loopWhy+")")
+			return
+		}
+		okIter, wit := c01EveryIteration(ar, reg.loop.Head, reg.loop.Done, reg.putMust)
+		if !okIter {
+			c.Fail(key, rule, reg.loopPos, "an iteration of the slot loop in AddRoot can finish without writing the roots table ("+ar.DescribePath(wit)+"), the table is written for fewer slots than the cache and the live election see: "+bad)
+			return
+		}
+		ok := true
+		for _, e := range reg.puts {
+			rec := c01PutRecord(e)
+			if !(rec.ok && rec.id == reg.root && rec.validator == reg.root) {
+				ok = false
+				continue
+			}
+			fl := core.Linearize(ar.Info(), resolveLocal(ar, rec.frame), c01SlotNamer(ar, reg.loop, reg.spf, reg.root))
+			if !(len(fl.Coef) == 1 && coefIs(fl, "f", 1)) {
+				ok = false
+			}
+		}
+		c.Check(ok, key, rule, reg.loopPos, "every iteration of AddRoot's slot loop writes the record (iteration's frame, root.Creator(), root.ID()) to the roots table", "the record written per slot is not keyed by the iteration's frame and the root's creator and id: "+bad)
 	})
 }
